@@ -173,6 +173,19 @@ def corner_ops(rng, spec, guarded):
         n_ = rng.choice(sorted(svs))
         cur = spec["servers"][n_]["server_type"]
         ops.append({"op": "settype", "kind": "servers", "name": n_, "value": rng.choice([t for t in ("autoscaling", "on-premise", "serverless") if t != cur])})
+    # the time zone of a country changed in place, the hourly input of a usage pattern given another length or start
+    cs = sorted({spec["patterns"][p]["country"] for p in spec["system"]["usage_patterns"]})
+    if cs:
+        c_ = rng.choice(cs)
+        ops.append({"op": "settz", "kind": "countries", "name": c_, "value": rng.choice([z for z in specgen.ZONES if z != spec["countries"][c_]["timezone"]])})
+    pn_ = rng.choice(list(spec["system"]["usage_patterns"]))
+    h_ = spec["patterns"][pn_]["hourly_usage_journey_starts"]
+    # (same length: the library refuses to compare, hence to assign, an hourly input of another length — a valid edit
+    # refused, which none of the properties forbids)
+    st_ = list(h_["start"])
+    st_[2] = max(1, min(27, st_[2] + rng.choice([-1, 1])))
+    if st_ != list(h_["start"]):
+        ops.append({"op": "sethourly", "kind": "patterns", "name": pn_, "values": [round(rng.uniform(0.5, 400), 2) for _ in h_["values"]], "start": st_})
     # a journey that goes through one of its steps once more (same members: only the multiplicity changes)
     for p in spec["system"]["usage_patterns"]:
         ujn = spec["patterns"][p]["usage_journey"]
@@ -312,6 +325,8 @@ def edit_vs_rebuild_shard(args):
                     undo = dict(op, value=e[op["param"]])
                 elif op["op"] == "sethourly":
                     undo = dict(op, values=e["hourly_usage_journey_starts"]["values"])
+                    if "start" in op:
+                        undo["start"] = list(e["hourly_usage_journey_starts"]["start"])
                 elif op["op"] == "setlink":
                     undo = dict(op, target=e[op["attr"]])
                 else:
